@@ -194,8 +194,14 @@ def regenerate(ctx):
     try:
         import realstring
         import lexnum
+        import normbase
         changed |= realstring.main(vlib.REPO, os.path.join(vlib.COQ, "Num", "Gen_RealString.v"))
         changed |= lexnum.main(vlib.REPO, os.path.join(vlib.COQ, "Num", "Gen_LexNum.v"))
+        changed |= normbase.main(vlib.REPO, os.path.join(vlib.COQ, "Num", "Gen_Normalize.v"))
+        m = re.search(r"normalize_base : N := (\d+)", open(os.path.join(vlib.COQ, "Num", "Gen_Normalize.v")).read())
+        ctx.note("normalize() passes base %s to mpq_set_str: model variant string_to_rational_b %s (%s)" %
+                 (m.group(1), m.group(1), "octal/hex prefixes honoured: fraction_value_refuted applies" if m.group(1) == "0"
+                  else "decimal only: fraction_value_fixed applies"))
     except Exception as e:
         ctx.tie_broken("translator", "%s: %s" % (type(e).__name__, e))
         return False
@@ -358,7 +364,8 @@ def judge_api(ctx, s, impl):
             continue
         if len(w) == 3 and w[0] in ("Int", "Real"):
             if want == "reject":
-                violation(ctx, "api:accepts-malformed", "%s: mkConst(%r) yields the %s constant %s although the text is not a well-formed literal" %
+                cls = "leading-dot" if re.match(r"^-?\.\d+$", s) else "bare-minus" if s == "-" else "other"
+                violation(ctx, "api:accepts-malformed:" + cls, "%s: mkConst(%r) yields the %s constant %s although the text is not a well-formed literal" %
                               (logic, s, w[0], w[1]), dict(literal=s, impl=impl, how=how))
                 continue
             try:
